@@ -12,6 +12,18 @@ CHECKS = {
  "C01": dict(level="exploration", engine="E1+E2", technique="model-based property testing (proptest histories vs reference nested map) + exhaustive deletion-subset enumeration of small multi-level trees",
    text="Generated API histories and every deletion subset of small one-/two-/three-level and mixed trees are executed against jammdb and a reference nested ordered map; every return value, a fresh-reader dump, an independent parse of the file and a reopen are compared after every commit. Exploration: bounded by the generated set reported in the evidence, not a proof.",
    note="Reference model encodes DESIGN.md 1.3; independent parser encodes the pinned file layout; scratch files on tmpfs; x86_64 Linux.", ref="4/C01"),
+ "C05": dict(level="exploration", engine="E1+E2", technique="property-based testing: generated histories (bucket-deletion storms, mixed buckets, C01 grammar) with an independent file parser doing exact page accounting after every commit, cross-checked with DB::check()",
+   text="After every commit of every generated history the raw file bytes are parsed by code that shares nothing with jammdb: each page below the high-water mark must be exactly one of header / reachable once (with overflow run) / free-list page / free-list entry; key order, separators, element bounds are checked; DB::check() must agree. Exploration over the generated set reported in the evidence.",
+   note="The parser encodes the pinned layout (DESIGN.md 1.1); validated against healthy and corrupted files.", ref="4/C05"),
+ "C06": dict(level="exploration", engine="E1+E2", technique="model-based property testing with whole-file hash invariants around rollbacks / read transactions / reopen, ReadOnlyTx on every mutator, full in-tx dump after every erroring call",
+   text="Rollback-heavy generated histories: file bytes hashed before and after every dropped write transaction, read transaction and reopen; every mutator attempted through readers must return ReadOnlyTx; after an erroring call the transaction's whole view equals the unchanged model; later commits must match a model that never saw the abandoned work and pass exact page accounting (a leaked allocation shows as an unaccounted page).",
+   note="64-bit hash of all file bytes + length; model per DESIGN.md 1.3.", ref="4/C06"),
+ "C07": dict(level="exploration", engine="E1", technique="model-based property testing: full read API compared with the model overlay after every single operation of a generated write transaction over generated starting tree shapes",
+   text="Single generated write transactions over fresh / one- / two- / three-level / mixed committed buckets; after every operation get, get_kv, scan, seek, range, buckets, kv_pairs, next_int of every touched bucket and ancestors are compared with the model overlay; then commit or rollback and re-check.",
+   note="Model overlay = committed model clone + the transaction's ops.", ref="4/C07"),
+ "C08": dict(level="exploration", engine="E1", technique="enumerative property testing: all neighbour-derived seek keys and all bound pairs x bound kinds on generated buckets, oracle = sorted-suffix rule / hand-written filter of the model",
+   text="For generated buckets (empty to three-level, committed and mid-transaction) every candidate key derived from the present keys is used for seek, and every pair of candidates x {included, excluded, unbounded}^2 for range (exhaustive on small buckets, sampled on large) through tuple and std range types and the to_buckets / to_kv_pairs filters, with repeated next() after exhaustion.",
+   note="seek(absent) may land on predecessor or successor (both accepted).", ref="4/C08"),
 }
 
 NOT_BUILT_REASON = "check not built yet in this session (design in DESIGN.md section 4); not claimed until it exists and is silent on the unchanged tree"
